@@ -257,8 +257,7 @@ func (c *Ctx) sortOf(t types.Type) string {
 			c.DeclSort("Str")
 			return "Str"
 		case u.Info()&types.IsFloat != 0:
-			c.DeclSort("Flt")
-			return "Flt"
+			return "Real"
 		case u.Kind() == types.UntypedNil, u.Kind() == types.UnsafePointer:
 			return "Int"
 		}
@@ -332,9 +331,7 @@ func (c *Ctx) zero(t types.Type) Val {
 			c.DeclFun("str_empty", nil, "Str")
 			return scalar(t, "str_empty")
 		case u.Info()&types.IsFloat != 0:
-			c.DeclSort("Flt")
-			c.DeclFun("flt_zero", nil, "Flt")
-			return scalar(t, "flt_zero")
+			return scalar(t, "0.0")
 		}
 		return scalar(t, "0")
 	case *types.Pointer, *types.Map, *types.Signature, *types.Interface, *types.Chan:
